@@ -8,21 +8,20 @@
 import BorshModel.De
 namespace Borsh
 
+/-- the canonical form of a map entry `[k, v]`, given the canonical forms of keys and values -/
+def canonEntry (ck cv : Val → Val) : Val → Val
+  | .list [a, b] => .list [ck a, cv b]
+  | v => v
+
 mutual
 def canon : Ty → Val → Val
-  | .seq k t, .list vs =>
-    match k with
-    | .indexSet => .list (collectIndexSet (vs.map (canon t)))
-    | _ => .list (vs.map (canon t))
+  | .seq _ t, .list vs => .list (vs.map (canon t))
   | .seq _ t, .deque a b => .deque ((a ++ b).map (canon t)) []
-  | .set _ t, .list vs => .list (collectSet (vs.map (canon t)))
+  | .set _ t, .list vs => .list ((sortByKey id vs).map (canon t))
   | .map k kt vt, .list es =>
-    let es' := es.map fun e => match e with
-      | .list [a, b] => Val.list [canon kt a, canon vt b]
-      | v => v
     match k with
-    | .indexMap => .list (collectIndexMap es')
-    | _ => .list (collectMap es')
+    | .indexMap => .list (es.map (canonEntry (canon kt) (canon vt)))
+    | _ => .list ((sortByKey entryKey es).map (canonEntry (canon kt) (canon vt)))
   | .array _ t, .list vs => .list (vs.map (canon t))
   | .prod k fs, .list vs =>
     let r := canonFields fs vs
@@ -61,6 +60,44 @@ def plainFields : List (Option Name × Bool × Ty) → Bool
 def plainVariants : List (Name × Nat × List (Option Name × Bool × Ty)) → Bool
   | [] => true
   | (_, _, fs) :: vs => plainFields fs && plainVariants vs
+end
+
+mutual
+/-- key types: the canonical form of a value is the value itself (no hash collections, deques,
+skipped fields or init hooks inside), so ordering keys before or after decoding is the same -/
+def keyTy : Ty → Bool
+  | .int _ | .nonzero _ | .float _ | .bool | .str _ | .asciiChar | .raw _ | .custom _ => true
+  | .seq k t => k != .vecDeque && keyTy t
+  | .set _ _ | .map _ _ _ => false
+  | .array _ t => keyTy t
+  | .prod k fs => !k.init && keyTyFields fs
+  | .sum k vs => !k.init && keyTyVariants vs
+  | .wrap _ t => keyTy t
+def keyTyFields : List (Option Name × Bool × Ty) → Bool
+  | [] => true
+  | (_, skip, t) :: fs => !skip && keyTy t && keyTyFields fs
+def keyTyVariants : List (Name × Nat × List (Option Name × Bool × Ty)) → Bool
+  | [] => true
+  | (_, _, fs) :: vs => keyTyFields fs && keyTyVariants vs
+end
+
+mutual
+/-- every set element type, map key type and index-set element type is a key type -/
+def keysOk : Ty → Bool
+  | .seq k t => keysOk t && (k != .indexSet || keyTy t)
+  | .set _ t => keysOk t && keyTy t
+  | .map _ a b => keysOk a && keysOk b && keyTy a
+  | .array _ t => keysOk t
+  | .prod _ fs => keysOkFields fs
+  | .sum _ vs => keysOkVariants vs
+  | .wrap _ t => keysOk t
+  | _ => true
+def keysOkFields : List (Option Name × Bool × Ty) → Bool
+  | [] => true
+  | (_, _, t) :: fs => keysOk t && keysOkFields fs
+def keysOkVariants : List (Name × Nat × List (Option Name × Bool × Ty)) → Bool
+  | [] => true
+  | (_, _, fs) :: vs => keysOkFields fs && keysOkVariants vs
 end
 
 mutual
